@@ -162,6 +162,20 @@ def near_label_programs():
                     yield pre + [L.label('A')] + list(between) + [s[1]('A')]
 
 
+def labeldiff_programs(k):
+    """the SIZE of a stretch of code (B - A) used as an operand: it shrinks when the stretch is compressed"""
+    import itertools
+    fill = [progs.I('addi', rd=8, rs1=8, imm=1), progs.I('add', rd=5, rs1=6, rs2=7), L.li(9, 1), progs.I('jal', rd=0, imm=('offset', 'B'))]
+    d = ('diff', 'B', 'A')
+    users = [L.cinst('c.sw', rs1=8, rs2=9, imm=d), L.cinst('c.lw', rd=8, rs1=9, imm=d), L.cinst('c.addi', rd=8, imm=d), L.cinst('c.addi16sp', imm=d), L.cinst('c.lwsp', rd=5, imm=d),
+             L.cinst('c.slli', rd=8, imm=d), L.cinst('c.addi4spn', rd=8, imm=d), progs.I('lw', rd=8, rs1=9, imm=d), progs.I('addi', rd=2, rs1=2, imm=d), progs.I('slli', rd=8, rs1=8, shamt=1),
+             L.data('db B - A', ('<B', d)), L.data('pack <B B - A + -4', ('<b', ('diff', 'B', 'A', -4))), L.li(10, d), L.data('dw B - A', ('<I', d))]
+    for body in itertools.product(fill, repeat=k) if k <= 3 else [tuple(fill[(i * 7 + k) % 4] for i in range(k)), tuple([fill[0]] * k), tuple([fill[1]] * k)]:
+        for u in users:
+            yield [L.label('A')] + list(body) + [L.label('B'), u]
+            yield [u, L.label('A')] + list(body) + [L.label('B')]
+
+
 def s2_tasks(tier):
     from mc.props import c03
     ts = [dict(t, src='c03') for t in c03.s2_tasks(tier)]
@@ -169,6 +183,7 @@ def s2_tasks(tier):
     n = (len(edge) + 255) // 256
     ts += [dict(src='edge', lo=i * 256, hi=(i + 1) * 256) for i in range(n)]
     ts += [dict(src='symbolic', part=i, parts=16) for i in range(16)]
+    ts += [dict(src='labeldiff', k=k) for k in range(0, 9)]
     ts += [dict(src='nearlabel', part=i, parts=64) for i in range(64)]
     return ts
 
@@ -185,6 +200,8 @@ def s2_programs(task):
         if task['tier'] not in _EDGE:
             _EDGE[task['tier']] = progs.edge_instructions(task['tier'])
         yield _EDGE[task['tier']][task['lo']:task['hi']]
+    elif k == 'labeldiff':
+        yield from labeldiff_programs(task['k'])
     else:
         gen = symbolic_programs() if k == 'symbolic' else near_label_programs()
         for i, p in enumerate(gen):
